@@ -32,7 +32,8 @@ ASSUMPTIONS = ["float64 CPU", "sp methods (MNDO/AM1/PM3/PM6_SP); the d-orbital P
                "start densities carry no weight on padding orbitals and the same perturbation in both spin channels (valid inputs only)",
                "a call that raises is a loud, bounded return: counted (calls_raised), not judged here",
                "UHF per-spin commutator/reproduction constants carry the calibrated factor S_UHF = 5 (see module comment)"]
-REQUIRED_MONITORS = ["rows_checked_converged", "rows_flagged_notconverged", "get_error_calls", "loop_backedges",
+REQUIRED_MONITORS = ["sp2_calls_uneven_sweeps", "sp2_rows_vs_alone_compared", "finite_T_rows_checked",
+                     "rows_checked_converged", "rows_flagged_notconverged", "get_error_calls", "loop_backedges",
                      "sp2_calls", "ksa_returns"]
 CASE_TIMEOUT = 120.0
 BUDGET_S = {"quick": 200, "thorough": 1700}
@@ -177,6 +178,48 @@ def gen_cases(tier, seed):
         cases.append({"kind": "far-fragments", "mols": [{"name": label, "explicit": ex, "gseed": 0, "sigma": 0.0, "scale": 1.0}],
                       "pad": 0, "method": meth, "conv": cv, "sp2": None, "eps": 1e-8, "start": "default", "cap": None,
                       "uhf": False, "backward": 0})
+    # SP2 in batches whose rows need DIFFERENT numbers of purification sweeps (a small next to a much larger molecule):
+    # every row is also run alone with the same settings (scf_eps 1e-10, so the eps terms are negligible)
+    small, large = ["CH4", "N2", "H2O", "NH3", "HF", "CO"], ["C6H6", "C2H6", "CH3NH2", "CH3OH", "HCOOH", "C2H4"]
+    un = [(["CH4", "C6H6"], [0, 0.3], 1e-5), (["N2", "C6H6"], [1], 1e-7), (["H2O", "C2H6"], [2], 1e-5),
+          (["N2", "CH3NH2"], [0, 0.5], 1e-7), (["CH4", "N2", "C6H6", "H2O"], [1], 1e-5)]
+    for i in range(0 if tier == "quick" else 40):
+        k = int(g.integers(2, 8)) if i % 4 == 0 else 2
+        names = [_pick(g, small)] + [_pick(g, large)] + [_pick(g, small + large) for _ in range(k - 2)]
+        un.append((names, _pick(g, [[0, 0.3], [0, 0.6], [1], [2]]), float(_pick(g, [1e-4, 1e-5, 1e-7]))))
+    for names, cv, tol in un:
+        ms = []
+        for n in names:
+            mm = _mk_mol(g, n, 1.0)
+            mm["sigma"] = 0.03
+            ms.append(mm)
+        cases.append({"kind": "sp2-uneven", "mols": ms, "pad": 0, "method": "AM1", "conv": cv, "sp2": tol, "eps": 1e-10,
+                      "start": "default", "cap": None, "uhf": False, "backward": 0})
+    # finite electronic temperature (Fermi_Q chemical-potential search) in batches of two molecules with EQUAL AO counts
+    # (KSA on unequal sizes raises loudly) and different gaps: KSA and the [0, alpha, "T_el", T] form
+    # (wide-gap molecule whose mid-gap guess already meets the 1e-9 occupation tolerance next to a narrower-gap one that
+    #  needs Newton steps; T_el 3000 K as control where both start inside the tolerance)
+    ksa_pairs = [("H2O", "H2S"), ("H2O", "BeH2"), ("NH3", "BH3"), ("CH4", "F2"), ("CH4", "N2"), ("C2H4", "SO2")]
+    mix_pairs = [("H2O", "C2H4"), ("H2O", "N2"), ("H2O", "F2"), ("NH3", "H2S"), ("CH2O", "H2S"), ("H2O", "C2H6"),
+                 ("HCOOH", "BeH2"), ("SO2", "CH3NH2"), ("HNO", "BH3"), ("CO", "HCOOH"), ("H2O", "HCN", "C2H2")]
+    plan = []
+    if tier == "quick":
+        plan += [(("H2O", "H2S"), 5500.0, True), (("H2O", "H2S"), 4000.0, True), (("H2O", "BeH2"), 5500.0, True),
+                 (("NH3", "BH3"), 3000.0, True), (("H2O", "C2H4"), 5500.0, False), (("H2O", "N2"), 5500.0, False),
+                 (("NH3", "H2S"), 4000.0, False), (("CH2O", "H2S"), 4000.0, False), (("H2O", "F2"), 5500.0, False),
+                 (("H2O", "HCN", "C2H2"), 5500.0, False), (("H2O", "C2H4"), 3000.0, False)]
+    else:
+        for T in [3000.0, 4000.0, 5500.0]:
+            plan += [(pp, T, True) for pp in ksa_pairs] + [(pp, T, False) for pp in mix_pairs]
+    for names, T, ksa in plan:
+        ms = []
+        for n in names:
+            mm = _mk_mol(g, n, 1.0)
+            mm["sigma"] = 0.02
+            ms.append(mm)
+        cv = [3, {"T_el": T, "max_rank": 3, "err_threshold": 0.0}] if ksa else [0, 0.3, "T_el", T]
+        cases.append({"kind": "finite-T", "mols": ms, "pad": 0, "method": "AM1", "conv": cv, "sp2": None,
+                      "eps": 1e-11 if ksa else 1e-10, "start": "default", "cap": None, "uhf": False, "backward": 0, "T_el": T})
     # scf_backward=1: reaches the implicit-adjoint fixed-point loops from the same public call
     for name in (["H2O", "CH2O"] if tier == "quick" else ["H2O", "CH2O", "NH3", "HCN", "CH3OH", "C2H4"]):
         cases.append({"kind": "backward", "mols": [_mk_mol(g, name, 1.0)], "pad": 0, "method": "AM1",
@@ -304,7 +347,8 @@ def run_case(case):
            "loop_backedges": 0, "sp2_calls": 0, "ksa_returns": 0, "failpoints_fired": 0, "rows_capped_notconverged": 0,
            "flag_pessimistic_rows": 0, "repro_ineligible_small_gap": 0, "calls_raised": 0, "r1_rebuilds": 0,
            "backward_fixed_point_calls": 0, "flag_rows_checked": 0, "iteration_counts_checked": 0,
-           "returned_vs_judged_rows": 0}
+           "returned_vs_judged_rows": 0, "sp2_calls_uneven_sweeps": 0, "sp2_rows_vs_alone_compared": 0,
+           "sp2_rows_same_sweep_sequence": 0, "sp2_rows_other_sweep_sequence": 0, "finite_T_rows_checked": 0}
     viol, margins, cells = [], {}, []
 
     def upd(name, val, tol):
@@ -343,6 +387,10 @@ def run_case(case):
             pass
 
     lw.on_return(sl.scf_forward3, ksa_reader)
+    sweeps = scfmon.SP2SweepLog()
+    if sp2:
+        from seqm.seqm_functions import SP2 as sp2mod
+        sweeps.attach(lw, sp2mod.SP2)
     elog = scfmon.ErrorLog(eps)
     out, raised, fired = None, None, None
     try:
@@ -367,11 +415,14 @@ def run_case(case):
     mon["get_error_calls"] = elog.calls
     mon["loop_backedges"] = int(sum(lw.max_seen.values()))
     mon["sp2_calls"] = lw.calls.get("SP2", 0)
+    mon["sp2_calls_uneven_sweeps"] = sweeps.uneven_calls
     mon["ksa_returns"] = ksa_log.get("n", 0)
     mon["backward_fixed_point_calls"] = lw.calls.get("fixed_point_anderson", 0) + lw.calls.get("fixed_point_picard", 0)
     loops_seen = {k: int(v) for k, v in lw.max_seen.items()}
     for k in lw.calls:
         cells.append("loop-reached/" + k)
+    if case.get("T_el"):
+        cells.append("finite-T/%s/%s/T%g" % (method, tag, case["T_el"]))
     cell = "%s/%s/%s/eps%g/%s/cap%s/%s/%s" % (method, tag, "sp2=%g" % sp2 if sp2 else "diag", eps, case["start"],
                                               case.get("cap") or "default", "uhf" if uhf else "rhf",
                                               "padded" if any(0 in r for r in S) else ("batch" if len(S) > 1 else "single"))
@@ -500,6 +551,13 @@ def run_case(case):
         # |tr P - N| <= alpha/(1-alpha) * n_orb * 15 eps (only a start density with a wrong trace uses this term)
         # KSA: P_k = P_(k-1) - dP with tr(dP) = tr(residual) (1 + o(1)), so |tr P - N| <= n_orb * max|residual| <= n_orb * 15 eps
         tol_trace = 1e-9 + 10.0 * sp2e + K_TRACE_EPS * nbas * eps * (alpha * A if conv[0] == 0 else (1.0 if conv[0] == 3 else 0.0))
+        finite_T = bool(case.get("T_el"))
+        if finite_T:
+            # Fermi_Q solves sum_i f_i = n_occ to 1e-9 (spatial orbitals) => every density it returns has |tr P - N| <= 2e-9;
+            # convex mixing from the exact-trace default guess keeps that; KSA adds tr(residual) <= n_orb * 15 eps (eps 1e-11
+            # in these cells).  A strict consequence of the stopping rules, taken x1.5.
+            tol_trace = 1.5 * (2.0e-9 + (K_TRACE_EPS * nbas * eps if conv[0] == 3 else 0.0))
+            mon["finite_T_rows_checked"] += 1
         checks = [("symmetry", r["symmetry"], TOL_SYM), ("padding", r["padding"], 1e-14),
                   ("trace", r["trace"], tol_trace), ("trace_spin", r["trace_spin"], tol_trace),
                   ("charge_sum", r["charge_sum"], tol_trace),
@@ -528,6 +586,9 @@ def run_case(case):
                 checks.append(("reproduction_R1", r1["reproduction"],
                                allow / r1["gap"] + 1e-10 + K_REPRO * eps_eff * A * su * max(1.0, 1.0 / r1["gap"])))
             obs["max_F_repo_minus_F_R1"] = max(obs.get("max_F_repo_minus_F_R1", 0.0), r1["dF"])   # C06's business; recorded only
+        if finite_T:   # fractional occupations: idempotency and aufbau reproduction do not apply
+            checks = [c_ for c_ in checks if c_[0] not in ("idempotency", "reproduction", "reproduction_R1")]
+            checks = [(n_ + ("@T" if n_ in ("trace", "trace_spin", "charge_sum") else ""), v_, t_) for n_, v_, t_ in checks]
         for name, val, tol in checks:
             if upd(name + ("/" + tag + ("/uhf" if uhf else "") if name in ("idempotency", "commutator", "reproduction") else ""), val, tol):
                 bad.append((name, float(val), float(tol)))
@@ -555,6 +616,43 @@ def run_case(case):
             viol.append({"clause": name, "mech": mech,
                          "detail": dict(detail_common, row=b, value=val, bound=tol, ratio=val / tol, eps_eff=eps_eff, A=A,
                                         residuals=rr, coords=C[b])})
+    if case.get("kind") == "sp2-uneven":
+        # every converged row against the SAME molecule run alone with the same settings: SP2 acts row by row, so the
+        # batch can only change a row's SCF path (Pulay) -- both runs end within one admissible step of the same fixed point
+        obs["sp2_sweeps_batch"] = {str(k): v[:6] for k, v in sweeps.rows.items()}
+        from seqm.seqm_functions import SP2 as sp2mod
+        for b in range(nrow):
+            if flag[b]:
+                continue
+            Zb, Xb, qb, mb = _geometry(case["mols"][b])
+            lw2 = scfmon.standard_watch(cap, CONV_MAX, SP2_BOUND, extra=False)
+            sw2 = scfmon.SP2SweepLog()
+            sw2.attach(lw2, sp2mod.SP2)
+            try:
+                lw2.install()
+                try:
+                    alone = run.single_point(Zb, Xb, sett, charges=qb, mult=mb)
+                except Exception:
+                    alone = None
+            finally:
+                lw2.uninstall()
+            if alone is None or bool(np.any(alone["notconverged"])):
+                continue
+            mon["sp2_rows_vs_alone_compared"] += 1
+            same = sw2.rows.get(0) == sweeps.rows.get(b)
+            mon["sp2_rows_same_sweep_sequence" if same else "sp2_rows_other_sweep_sequence"] += 1
+            n4 = 4 * len(Zb)
+            dP = float(np.abs(Pn[b][:n4, :n4] - alone["dm"][0]).max())
+            dT = abs(float(np.trace(Pn[b])) - float(np.trace(alone["dm"][0])))
+            dE = abs(float(Ee[b]) - float(alone["Eelec"][0]))
+            tolP = 1e-10 + scfmon.K_MAX * eps * A
+            for name, val, tol in (("sp2_row_vs_alone_density", dP, tolP), ("sp2_row_vs_alone_trace", dT, n4 * tolP),
+                                   ("sp2_row_vs_alone_Eelec", dE, 1e-9 + 20.0 * eps * A)):
+                if upd(name, val, tol):
+                    viol.append({"clause": name, "mech": None,
+                                 "detail": dict(detail_common, row=b, value=val, bound=tol, ratio=val / tol, coords=C,
+                                                sweeps_batch=sweeps.rows.get(b, [])[:8], sweeps_alone=sw2.rows.get(0, [])[:8],
+                                                sweeps_other_rows={str(k): v[:4] for k, v in sweeps.rows.items() if k != b})})
     obs["residuals"] = resid_rows[:3]
     obs["flag"] = [bool(x) for x in flag]
     conv_counts = {}
